@@ -187,44 +187,138 @@ theorem nsmap_ok (E : Enc) (D : List (Str × Str)) (s : PState) (hp : PoolOk E s
 
 /-! ### attributes -/
 
-theorem res_attrName_aux (name : Str) (o : Option Nat) (hne : name.isEmpty = false) (hcol : name ≠ [0x3A])
-    (hr : (match o with
-      | none => true
-      | some id =>
-        match sysAttrName id with
-        | none => true
-        | some n => decide ((n.map fun c => if c = 0x5F then 0x3A else c) = name)) = true) :
-    (let res := match (generalizing := false) o with
-      | some id => (match (generalizing := false) sysAttrName id with
-          | some n => n.map fun c => if c = 0x5F then 0x3A else c
-          | none => name)
-      | none => name
-    if res.isEmpty ∨ res = [0x3A] then
-      match (generalizing := false) o with
-      | some id => if id ≠ 0 then .ok (lit unknownAttrPrefix ++ hex8L id) else .error "unmodelled:random-name"
-      | none => .error "unmodelled:random-name"
-    else .ok res : Except String Str) = .ok name := by
-  have hne' : name ≠ [] := by intro h; rw [h] at hne; simp at hne
-  cases o with
-  | none => simp [hne', hcol]
-  | some id =>
-    cases hq : sysAttrName id with
-    | none => simp [hq, hne', hcol]
-    | some n =>
-      simp only [hq, decide_eq_true_eq] at hr
-      simp [hq, hr, hne', hcol]
+/-- "_" -> ":" (what `getAttributeName` does to a system attribute name) -/
+def colonise (n : Str) : Str := n.map fun c => if c = 0x5F then 0x3A else c
+
+theorem res_colonise_id (n : Str) (h : n.contains 0x5F = false) : colonise n = n := by
+  induction n with
+  | nil => rfl
+  | cons c r ih =>
+    simp only [List.contains_cons, Bool.or_eq_false_iff, beq_eq_false_iff_ne, ne_eq] at h
+    have hc : ¬ c = 0x5F := fun e => h.1 e.symm
+    simp only [colonise, List.map_cons, hc, if_false] at ih ⊢
+    rw [ih h.2]
+
+theorem res_uncolonise (n : Str) (h : ∀ x ∈ n, NameChar x) :
+    (colonise n).map (fun c => if inClass nameKeepClass c then c else 0x5F) = n := by
+  induction n with
+  | nil => rfl
+  | cons c r ih =>
+    have hc := h c (by simp)
+    have e : (if inClass nameKeepClass (if c = 0x5F then 0x3A else c) = true then (if c = 0x5F then 0x3A else c) else 0x5F) = c := by
+      by_cases h5 : c = 0x5F
+      · subst h5; decide
+      · have : inClass nameKeepClass c = true := by
+          have := (nameClass_iff c).2 hc
+          rwa [show nameKeepClass = nameMatchClass from by decide]
+        simp [h5, this]
+    simp only [colonise, List.map_cons, List.map_map] at ih ⊢
+    rw [e, ih (fun x hx => h x (by simp [hx]))]
+
+theorem res_colonise_matches (n : Str) (h : ∀ x ∈ n, NameChar x) (hm : nameMatches (colonise n) = true) : colonise n = n := by
+  apply res_colonise_id
+  simp only [nameMatches, Bool.or_eq_true, Bool.and_eq_true, decide_eq_true_eq] at hm
+  have hall : (colonise n).all (inClass nameMatchClass) = true := by
+    rcases hm with hm | hm
+    · exact hm
+    · exfalso
+      have hl := hm.1
+      simp only [colonise, List.getLast?_map, Option.map_eq_some_iff] at hl
+      obtain ⟨x, hx, hx2⟩ := hl
+      have hxn := h x (List.mem_of_getLast? hx)
+      by_cases h5 : x = 0x5F
+      · simp [h5] at hx2
+      · simp only [h5, if_false] at hx2
+        subst hx2
+        unfold NameChar NameStart at hxn; omega
+  cases hc : n.contains 0x5F with
+  | false => rfl
+  | true =>
+    exfalso
+    rw [List.contains_iff_mem] at hc
+    rw [List.all_eq_true] at hall
+    have := hall 0x3A (by
+      simp only [colonise, List.mem_map]
+      exact ⟨0x5F, hc, by simp⟩)
+    revert this; decide
+
+/-- `_fix_name` on a system attribute name whose "_" were turned into ":" gives the name back when the attribute has a namespace -/
+theorem fixName_colonised (s : PState) (uri n : Str) (h : LegalName n) (hu : uri.isEmpty = false)
+    (hh : n.head? ≠ some 0x5F) : fixName s uri (colonise n) = .ok (uri, n) := by
+  have hall := res_legal_chars n h
+  match n, h with
+  | c :: r, h =>
+    simp only [LegalName] at h
+    have hc5 : ¬ c = 0x5F := by simpa using hh
+    have h80 : ¬ c ≥ 0x80 := by have := h.1; unfold NameStart at this; omega
+    have hstart : ¬ (!isAsciiAlpha c ∧ c ≠ 0x5F) := by
+      have := h.1; unfold NameStart at this
+      simp only [isAsciiAlpha, Bool.not_eq_true', Bool.or_eq_false_iff, Bool.and_eq_false_iff, decide_eq_false_iff_not]
+      omega
+    have hcol : colonise (c :: r) = c :: colonise r := by simp [colonise, hc5]
+    have hun := res_uncolonise (c :: r) hall
+    unfold fixName
+    rw [hcol]
+    simp only [List.headD_cons, h80, if_false, hstart, hu, Bool.false_eq_true, and_false, bind, Except.bind]
+    rw [← hcol]
+    by_cases hm : nameMatches (colonise (c :: r)) = true
+    · have hid := res_colonise_matches _ hall hm
+      rw [hid] at hm ⊢
+      simp [hm]
+    · simp [hm, hun]
 
 theorem res_attrName (E : Enc) (s : PState) (hp : PoolOk E s) (a : SAttr) (hmem : a.name ∈ E.strings)
-    (hl : LegalName a.name) (hr : resNameOk E a.name = true) : AgVerif.Axml.attrName s (rawOf E a) = .ok a.name := by
+    (hl : LegalName a.name) (hns : wfNs E a.ns = true) (hr : resNameOk E a = true) :
+    ∃ res, AgVerif.Axml.attrName s (rawOf E a) = .ok res ∧ fixName s (a.ns.getD []) res = .ok (a.ns.getD [], a.name) := by
   have hne := res_legal_ne_nil _ hl
+  have hne' : a.name ≠ [] := by intro h; rw [h] at hne; simp at hne
   have hcol := res_legal_ne_colon _ hl
-  unfold resNameOk at hr
-  have key := res_attrName_aux a.name _ hne hcol hr
-  unfold AgVerif.Axml.attrName
   have e : s.pool.get (rawOf E a).name = .ok a.name := hp.get _ hmem
+  have hidx : (rawOf E a).name = sidx E a.name := rfl
+  unfold resNameOk at hr
+  unfold AgVerif.Axml.attrName
   rw [e, hp.res]
   simp only [bind, Except.bind]
-  exact key
+  rw [hidx]
+  cases ho : (E.resIds.getD [])[sidx E a.name]? with
+  | none =>
+    refine ⟨a.name, ?_, fixName_legal s _ a.name hl⟩
+    simp [hne', hcol]
+  | some id =>
+    rw [ho] at hr
+    cases hq : sysAttrName id with
+    | none =>
+      refine ⟨a.name, ?_, fixName_legal s _ a.name hl⟩
+      simp [hq, hne', hcol]
+    | some n =>
+      simp only [hq, Bool.and_eq_true, Bool.or_eq_true, decide_eq_true_eq, Bool.not_eq_true'] at hr
+      obtain ⟨⟨hn, hus⟩, hhead⟩ := hr
+      subst hn
+      have hcne : colonise a.name ≠ [] := by
+        intro h; simp only [colonise, List.map_eq_nil_iff] at h; exact hne' h
+      have hc1 : colonise a.name ≠ [0x3A] := by
+        intro h
+        cases hnm : a.name with
+        | nil => exact hne' hnm
+        | cons c r =>
+          rw [hnm] at h hhead
+          simp only [colonise, List.map_cons, List.cons.injEq, List.map_eq_nil_iff] at h
+          have hc5 : ¬ c = 0x5F := by simpa using hhead
+          simp only [hc5, if_false] at h
+          have := res_legal_chars _ hl c (by rw [hnm]; simp)
+          rw [h.1] at this; unfold NameChar NameStart at this; omega
+      refine ⟨colonise a.name, ?_, ?_⟩
+      · have : a.name.map (fun c => if c = 0x5F then 0x3A else c) = colonise a.name := rfl
+        simp [hq, this, hcne, hc1]
+      · rcases hus with hsome | hno
+        · cases hns' : a.ns with
+          | none => rw [hns'] at hsome; simp at hsome
+          | some u =>
+            rw [hns'] at hns
+            simp only [wfNs, Bool.and_eq_true, decide_eq_true_eq] at hns
+            simp only [Option.getD_some]
+            exact fixName_colonised s u a.name hl (res_safeUri_ne u hns.2) hhead
+        · rw [res_colonise_id _ hno]; exact fixName_legal s _ a.name hl
 
 theorem res_formatValue_congr (opq : Nat → Nat → Str) (ty d1 d2 : Nat) (s1 s2 : Str)
     (hs : ty = 3 → s1 = s2) (hd : ty ≠ 3 → d1 = d2) : formatValue opq ty d1 s1 = formatValue opq ty d2 s2 := by
@@ -240,8 +334,7 @@ theorem res_buildAttrs_cons (opq : Nat → Nat → Str) (E : Enc) (s : PState) (
   simp only [wfAttr, Bool.and_eq_true, Bool.or_eq_true, decide_eq_true_eq] at hw
   obtain ⟨⟨⟨⟨⟨⟨⟨⟨wns, wmem⟩, wleg⟩, wres⟩, _⟩, _⟩, _⟩, wstr⟩, wval⟩ := hw
   have e1 : nsString s (rawOf E a).ns = .ok (a.ns.getD []) := res_nsString E s hp a.ns wns
-  have e2 := res_attrName E s hp a wmem wleg wres
-  have e3 := fixName_legal s (a.ns.getD []) a.name wleg
+  obtain ⟨shown, e2, e3⟩ := res_attrName E s hp a wmem wleg wns wres
   have e4 := res_checkUri E a.ns wns
   have e5 := res_checkName a.name wleg
   have e6 : ∃ str, (if (rawOf E a).type = TYPE_STRING then s.pool.get (rawOf E a).valueString else .ok []) = .ok str ∧
